@@ -128,8 +128,18 @@ pub async fn run_one(seed: u64, recover_mode: bool) -> Vec<Value> {
             0 if !recover_mode => {
                 let ms = members(&rig).await;
                 let down: Vec<String> = rig.w.net.inner.down.lock().iter().cloned().collect();
-                let up: Vec<String> = ms.into_iter().filter(|m| !down.contains(m)).collect();
-                if up.len() > 2 {
+                // only a proxy whose chunk partner is reachable may fail (C06 / C07 are about that case: with both proxies of a
+                // chunk gone the chunk's data is gone and nothing can converge), and at most two proxies are ever down
+                let raw = rig.w.broker.raw_store().await;
+                let mut partner_ok: Vec<String> = vec![];
+                for ch in raw["clusters"]["c1"]["chunks"].as_array().cloned().unwrap_or_default() {
+                    let ps: Vec<String> = ch["proxy_addresses"].as_array().cloned().unwrap_or_default().iter().map(|p| p.as_str().unwrap_or("").to_string()).collect();
+                    if ps.len() == 2 && !down.contains(&ps[0]) && !down.contains(&ps[1]) {
+                        partner_ok.extend(ps);
+                    }
+                }
+                let up: Vec<String> = ms.into_iter().filter(|m| !down.contains(m) && partner_ok.contains(m)).collect();
+                if up.len() > 2 && down.len() < 2 {
                     if let Some(a) = up.choose(&mut rng).cloned() {
                         rig.w.net.inner.down.lock().insert(a.clone());
                         if rng.gen_bool(0.5) {
@@ -300,8 +310,14 @@ pub async fn run_one(seed: u64, recover_mode: bool) -> Vec<Value> {
 }
 
 pub fn run_many<W: Write>(out: &mut W, count: u64, seed: u64) {
-    let rt = tokio::runtime::Builder::new_current_thread().enable_all().start_paused(true).build().expect("rt");
+    // a fresh runtime every few runs: the background tasks of finished runs (proxies, migrations, replicators) die with their
+    // runtime; with one runtime for hundreds of runs a thorough part grew to several GB and the OOM killer took it
+    let mk = || tokio::runtime::Builder::new_current_thread().enable_all().start_paused(true).build().expect("rt");
+    let mut rt = mk();
     for i in 0..count {
+        if i > 0 && i % 8 == 0 {
+            rt = mk();
+        }
         let s = seed.wrapping_mul(1_000_003).wrapping_add(i);
         let log = rt.block_on(run_one(s, i % 3 == 2));
         for e in log {
